@@ -279,6 +279,15 @@ func (m *Migrator) migrateSwamp(folderPath string) {
 			"duplicates_removed", duplicateCount)
 	}
 
+	// A file already lying at the target path (left over from an interrupted migration, or the swamp was
+	// migrated before) must not be appended to: NewFileWriterWithName would open it for appending.
+	if !m.config.DryRun {
+		if _, statErr := os.Stat(folderPath + ".hyd"); statErr == nil {
+			m.recordFailure(folderPath, "target file "+folderPath+".hyd already exists", "write")
+			return
+		}
+	}
+
 	// Skip empty swamps - don't create V2 file if there are no entries
 	if len(entries) == 0 {
 		slog.Info("Skipping empty swamp - no entries to migrate",
